@@ -100,7 +100,7 @@ def generate(rng, tier):
             T(_spell(rng, mm, e - extra - 1))
     # the same midpoints with a non-zero digit pushed out to EXACTLY the capacity of the big-decimal digit store (800) and its neighbours: the
     # sticky "truncated" flag is then produced by the shift routines (not by the reader), for magnitudes above and below one
-    for _ in range(150 if quick else 20000):
+    for _ in range(150 if quick else 2500):
         m, e = _halfway(rng)
         nd = len(str(m))
         for N in (798, 799, 800, 801, 802, 810):
